@@ -1,7 +1,7 @@
 """C12 (invalid traces are rejected) and C19 (tools are total): deterministic,
 exhaustive single-corruption enumeration of four multi-model base traces, run
 through the real tools built from the tree."""
-import os, shutil, json, itertools, struct
+import os, shutil, json, itertools, struct, time
 from lib.common import Ctx, Build, Scratch, InfraError, pmap
 from lib import emusrv, catalog, mutate, obs
 
@@ -190,19 +190,27 @@ def run_c19(prop, tier):
             ctx.cap("debug filter VERIF_C19_OPS=%s" % only)
         classes = {}
 
+        t_end = ctx.t0 + ctx.deadline_s * 0.8
+        hangs = {}
+
         def one(j):
             name, label, files = j
+            if time.time() > t_end:
+                return None         # deadline: reported as a cap, never as a pass
             res = []
             for t in tnames:
                 td = os.path.join(base, "w%d" % os.getpid())
                 write_files(td, files)      # ovnisort rewrites streams: fresh copy per tool
                 rc, out, err = emusrv.run_tool(tools[t], TOOL_ARGS[t] + [td], timeout=8,
                                                env_extra={"ASAN_OPTIONS": "detect_leaks=0:abort_on_error=1:allocator_may_return_null=1"})
-                if rc == "timeout":
+                if rc == "timeout" and hangs.get(t, 0) < 2:
                     # a deterministic case that timed out is re-run alone with a much longer limit before it is called a hang
+                    # (once this worker has confirmed two hangs of the tool that way, further 8 s timeouts are reported as they are)
                     write_files(td, files)
-                    rc, out, err = emusrv.run_tool(tools[t], TOOL_ARGS[t] + [td], timeout=90,
+                    rc, out, err = emusrv.run_tool(tools[t], TOOL_ARGS[t] + [td], timeout=(40 if tier == "quick" else 90),
                                                    env_extra={"ASAN_OPTIONS": "detect_leaks=0:abort_on_error=1:allocator_may_return_null=1"})
+                if rc == "timeout":
+                    hangs[t] = hangs.get(t, 0) + 1
                 san = ""
                 if "AddressSanitizer" in err or "runtime error" in err:
                     for l in err.split("\n"):
@@ -212,9 +220,13 @@ def run_c19(prop, tier):
             return res
         kinds = {}
         outcomes = set()
+        nskip = 0
         for j, res in zip(jobs, pmap(one, jobs)):
             name, label, files = j
             k = label.split(":")[0]
+            if res is None:
+                nskip += 1
+                continue
             kinds[k] = kinds.get(k, 0) + 1
             for (t, rc, san, tail) in res:
                 ctx.add(evaluations=1)
@@ -228,6 +240,8 @@ def run_c19(prop, tier):
                 ctx.violation("%s on base %s corruption %s: %s %s" % (t, name, label, what, (san or tail)[:300]),
                               {"engine": "E6 tools (ASan+UBSan, exact-size heap stream buffers)", "tool": t, "base": name, "corruption": label},
                               {"kind": "tool-not-total", "tool": t, "op": k, "site": site})
+        if nskip:
+            ctx.cap("%d of %d cases not run: deadline reached (hanging tools consume the budget)" % (nskip, len(jobs)))
         ctx.cov["by_operator"] = kinds
         ctx.cov["violation_classes"] = {k: {"count": len(v), "first": v[:3]} for k, v in classes.items()}
         ctx.cov["distinct_outcomes"] = len(outcomes)
